@@ -244,7 +244,24 @@ fn singular_inactive(cx: &mut Cx) {
 use vharness::ctxb::prog_to_ctx;
 
 fn symbolic(p: &Prog, pt: &[f32]) -> Result<Vec<[f32; 4]>, String> {
+    // every other call builds the program in one long-lived context that has differentiated all earlier programs and is
+    // cleared in between (a derivative must not depend on what the context held before `clear`)
+    thread_local! {
+        static LONG: std::cell::RefCell<(fidget_core::Context, usize)> = std::cell::RefCell::new((fidget_core::Context::new(), 0));
+    }
+    let reuse = LONG.with(|l| { let mut l = l.borrow_mut(); l.1 += 1; l.1 % 2 == 0 });
+    if reuse {
+        return LONG.with(|l| {
+            let ctx = &mut l.borrow_mut().0;
+            ctx.clear();
+            let roots = vharness::ctxb::prog_into_ctx(p, ctx);
+            symbolic_in(ctx, roots, pt)
+        });
+    }
     let (mut ctx, roots) = prog_to_ctx(p);
+    symbolic_in(&mut ctx, roots, pt)
+}
+fn symbolic_in(ctx: &mut fidget_core::Context, roots: Vec<fidget_core::context::Node>, pt: &[f32]) -> Result<Vec<[f32; 4]>, String> {
     let vars: HashMap<Var, f32> = [(Var::X, pt[0]), (Var::Y, *pt.get(1).unwrap_or(&0.0)), (Var::Z, *pt.get(2).unwrap_or(&0.0))].into_iter().collect();
     let mut out = vec![];
     for r in roots {
@@ -301,9 +318,13 @@ fn zprog(cx: &mut Cx, p: &Prog, rng: &mut Rng) {
 
 /// C + D: smooth float programs against the f64 dual reference
 fn whole(cx: &mut Cx, p: &Prog, rng: &mut Rng, with_mat: bool) {
+    whole_seeded(cx, p, rng, with_mat, None)
+}
+/// `force_unit`: Some(true) = unit seeds (the symbolic derivative takes part), None = either
+fn whole_seeded(cx: &mut Cx, p: &Prog, rng: &mut Rng, with_mat: bool, force_unit: Option<bool>) {
     let pt: Vec<f32> = (0..p.nvars).map(|_| rng.range(-2.0, 2.0)).collect();
     // arbitrary derivative seeds also through the transform (the caller's seeds are part of the chain rule there too)
-    let unit = rng.below(2) == 0;
+    let unit = force_unit.unwrap_or(rng.below(2) == 0);
     let sd: Vec<[f32; 3]> = (0..p.nvars).map(|k| seeds(rng, unit, k)).collect();
     let mut m = Matrix4::<f32>::identity();
     if with_mat {
@@ -444,8 +465,9 @@ fn main() {
     }
     // E: chain rule through every smooth operator (unit seeds, so that the symbolic derivative takes part)
     for p in chain_rule_programs() {
-        for rep in 0..(if quick { 4 } else { 24 }) {
-            whole(&mut cx, &p, &mut rng, rep % 4 == 3);
+        for rep in 0..(if quick { 5 } else { 24 }) {
+            // at least two points per program with unit seeds and no transform: the symbolic derivative takes part there
+            whole_seeded(&mut cx, &p, &mut rng, rep % 4 == 3, if rep < 2 { Some(true) } else { None });
         }
     }
     // F: min / max with a singular inactive branch
